@@ -215,6 +215,7 @@ fn render_stmts(sh: &Shader, stmts: &[Stmt], ind: usize, ctx: &mut Ctx, out: &mu
                 writeln!(out, "{pad}    }}").unwrap();
                 writeln!(out, "{pad}}}").unwrap();
             }
+            Stmt::Raw(t) => writeln!(out, "{pad}{t}").unwrap(),
             Stmt::Block(b) => {
                 writeln!(out, "{pad}{{").unwrap();
                 render_stmts(sh, b, ind + 1, ctx, out, in_value_fn);
